@@ -139,6 +139,10 @@ func runSweeperSim(env *RunEnv) {
 	})
 
 	touched := map[string]bool{} // dbi/key the application changed during the pass
+	// what the application last wrote there (nil = removed the key) and
+	// whether the sweeper may legitimately remove that again
+	appLast := map[string][]byte{}
+	appExpired := map[string]bool{}
 	appOps := 0
 	var t0 time.Time
 	started := false
@@ -208,19 +212,27 @@ func runSweeperSim(env *RunEnv) {
 						appOps++
 						continue
 					}
+					id := sp.hdr + "/" + string(key)
+					var nv []byte
+					appExpired[id] = false
 					switch kind {
-					case 0: // mark deleted now
-						err = txn.Put(hd, key, MakeHdr(nowTS, uint64(txn.ID()), 1, 0, nil), 0)
+					case 0: // mark deleted now (a marker younger than the pass itself)
+						nv = MakeHdr(nowTS, uint64(txn.ID()), 1, 0, nil)
 					case 1: // write a live value
-						err = txn.Put(hd, key, MakeHdr(nowTS, uint64(txn.ID()), 0, 0, []byte(fmt.Sprintf("app%d", appOps))), 0)
+						nv = MakeHdr(nowTS, uint64(txn.ID()), 0, 0, []byte(fmt.Sprintf("app%d", appOps)))
 					case 2: // an expired marker written during the pass
-						err = txn.Put(hd, key, MakeHdr(uint64(cut0.Add(-time.Minute).UnixNano()), uint64(txn.ID()), 1, 0, nil), 0)
-					case 3: // really remove the key
+						nv = MakeHdr(uint64(cut0.Add(-time.Minute).UnixNano()), uint64(txn.ID()), 1, 0, nil)
+						appExpired[id] = true
+					}
+					if nv != nil {
+						err = txn.Put(hd, key, nv, 0)
+					} else { // really remove the key
 						err = txn.Del(hd, key, nil)
 						if lmdb.IsNotFound(err) {
 							err = nil
 						}
 					}
+					appLast[id] = nv
 					if err != nil {
 						return err
 					}
@@ -297,6 +309,36 @@ func runSweeperSim(env *RunEnv) {
 						violate("nothing-else", "kept-entry-altered", fmt.Sprintf("DBI %s key %q: value changed from %x to %x", name, p.K, p.V, av))
 					}
 					kept++
+				}
+			}
+		}
+	}
+	// what the application wrote during the pass: a live entry or a marker
+	// younger than the pass is never removed or altered, whatever the sweeper
+	// does afterwards; an expired marker written during the pass may go or stay
+	if len(viol) == 0 {
+		for _, id := range sortedKeys(appLast) {
+			want := appLast[id]
+			p := strings.SplitN(id, "/", 2)
+			var got []byte
+			present := false
+			if d := after.DBIs[p[0]]; d != nil {
+				got, present = d.Map()[p[1]]
+			}
+			switch {
+			case want == nil:
+				if present {
+					violate("nothing-else", "entry-invented", fmt.Sprintf("%s was removed by the application during the pass but exists afterwards (%x)", id, got))
+				}
+			case appExpired[id]:
+				if present && !eqBytes(got, want) {
+					violate("nothing-else", "kept-entry-altered", fmt.Sprintf("%s: the application wrote %x during the pass, afterwards it is %x", id, want, got))
+				}
+			default:
+				if !present {
+					violate("nothing-else", "concurrent-write-removed", fmt.Sprintf("%s: the application wrote %x (a live entry or a marker younger than the pass) during the pass and the sweeper removed it", id, want))
+				} else if !eqBytes(got, want) {
+					violate("nothing-else", "kept-entry-altered", fmt.Sprintf("%s: the application wrote %x during the pass, afterwards it is %x", id, want, got))
 				}
 			}
 		}
